@@ -75,9 +75,9 @@ func generate(prop, tier string, rng *Rng) []Case {
 	case "C01":
 		return append(genC01(tier, rng), genC01Seq(tier, rng)...)
 	case "C02":
-		return genC02(tier, rng)
+		return append(genC02(tier, rng), genStorm(tier, rng, prop)...)
 	case "C03":
-		return genC03(tier, rng)
+		return append(genC03(tier, rng), genStorm(tier, rng, prop)...)
 	case "C04":
 		return genC04(tier, rng)
 	case "C20":
